@@ -244,7 +244,7 @@ func (bc *BoundsAnalyzer) feasibleAlternatives(
 		if !meet.Equals(symbols.EmptyType) {
 			return []ast.BaseTerm{symbols.NewRelType(meet, ast.NameBound)}, []map[ast.Variable]ast.BaseTerm{typeCtx}, nil
 		}
-		return nil, nil, fmt.Errorf("pred %v cannot succeed: type %v is incompatible with %v", pred, tpe, prefix)
+		return nil, nil, infeasibleError{fmt.Sprintf("pred %v cannot succeed: type %v is incompatible with %v", pred, tpe, prefix)}
 	}
 
 	if pred.Symbol == symbols.MatchEntry.Symbol {
@@ -311,7 +311,7 @@ func (bc *BoundsAnalyzer) feasibleAlternatives(
 			if !meet.Equals(symbols.EmptyType) {
 				return []ast.BaseTerm{symbols.NewRelType(ast.AnyBound, ast.NameBound, meet)}, []map[ast.Variable]ast.BaseTerm{typeCtx}, nil
 			}
-			return nil, nil, fmt.Errorf("pred %v on args %v cannot succeed var ranges %v", pred, args, varRanges)
+			return nil, nil, infeasibleError{fmt.Sprintf("pred %v on args %v cannot succeed var ranges %v", pred, args, varRanges)}
 		}
 	}
 	alternatives := symbols.RelTypeAlternatives(relTypeExpr)
@@ -384,10 +384,17 @@ func (bc *BoundsAnalyzer) feasibleAlternatives(
 		}
 	}
 	if len(feasible) == 0 {
-		return nil, nil, fmt.Errorf("no feasible alternative reltypes %v args %v var ranges %v", relTypeExpr, args, varRanges)
+		return nil, nil, infeasibleError{fmt.Sprintf("no feasible alternative reltypes %v args %v var ranges %v", relTypeExpr, args, varRanges)}
 	}
 	return feasible, feasibleSubst, nil
 }
+
+// infeasibleError says that no fact of a predicate can match the given
+// arguments under the given types of the variables. For a positive premise
+// this rules the inference state out; a negated premise holds in such a state.
+type infeasibleError struct{ msg string }
+
+func (e infeasibleError) Error() string { return e.msg }
 
 // While checking a rule, we want to look up possible relation types.
 // If we find several applicable ones, we return the feasible ones.
